@@ -7,6 +7,8 @@ seeds=${@:-$(ls seeded)}
 for s in $seeds; do
   id=${s%%-*}
   if grep -q '"superseded"' seeded/$s/meta.json; then echo "$s superseded (the change no longer breaks the property on the current tree) -> skipped"; continue; fi
-  out=$(tools/try_seed.sh /verif/seeded/$s/patch.diff $id 2>&1 | grep "\[check\]" | tail -1 | sed 's/.*\[check\]//' | cut -c1-150)
+  # the check that reports the seed: its own property's, unless meta.json names another one (./check CNN ...)
+  chk=$(python3 -c "import json,re,sys; m=json.load(open('seeded/$s/meta.json')); x=re.search(r'check (C\d\d)', m.get('detected_by',{}).get('check','')); print(x.group(1) if x else '$id')")
+  out=$(tools/try_seed.sh /verif/seeded/$s/patch.diff $chk 2>&1 | grep "\[check\]" | tail -1 | sed 's/.*\[check\]//' | cut -c1-150)
   echo "$s $out"
 done
